@@ -34,3 +34,28 @@ Example utf8_samples :
   valid_utf8 [118;111;105;108;195;160;32] = true /\ valid_utf8 [195] = false /\ valid_utf8 [160] = false /\
   valid_utf8 [237;160;128] = false /\ valid_utf8 [244;143;191;191] = true /\ valid_utf8 [192;128] = false.
 Proof. vm_compute. repeat split; reflexivity. Qed.
+
+(* (3) the functions that derive ids, labels, \label names, metadata keys and cleaned URLs /
+   titles from source text: label_from_string and clean_string (writer.c), modelled as byte
+   transducers (model/LabelModel.v, tied to the code by correspondence) keep valid UTF-8 valid:
+   a multi-byte character is copied whole or not at all, never split, never case-mapped bytewise. *)
+From MMD.model Require Import LabelModel.
+From MMD.proofs Require Import LabelProofs.
+
+Theorem label_preserves_utf8 :
+  forall s, over bytes1 s -> valid_utf8 s = true -> valid_utf8 (label_from_string s) = true.
+Proof. exact label_utf8. Qed.
+Print Assumptions label_preserves_utf8.
+
+Theorem clean_preserves_utf8 :
+  forall lowercase url_clean s, over bytes1 s -> valid_utf8 s = true ->
+  valid_utf8 (clean_string is_whitespace_or_line_ending lowercase url_clean s) = true.
+Proof.
+  intros lc uc. apply clean_utf8.
+  apply (chartable_high_bytes_inert is_whitespace_or_line_ending). cbn. tauto.
+Qed.
+Print Assumptions clean_preserves_utf8.
+
+Example label_sample :
+  label_from_string [72; 195; 169; 32; 108; 95; 87; 240; 159; 142; 137; 33] = [104; 195; 169; 108; 95; 119; 240; 159; 142; 137].
+Proof. vm_compute. reflexivity. Qed.
